@@ -380,8 +380,6 @@ class Tupl(Combinator[tuple]):
     def deserialize(
         self, env: CombinatorEnv, data: str, idx: int
     ) -> Optional[Tuple[int, List[tuple]]]:
-        if idx == len(data):
-            return None
         parts = []
         ofs = 0
         for element in self._elements:
@@ -558,8 +556,6 @@ class Rooms(Combinator[RoomsType]):
     def _deserialize(
         self, env: CombinatorEnv, data: str, idx: int
     ) -> Optional[Tuple[int, List[RoomsType]]]:
-        if idx == len(data):
-            raise ValueError("index out of bounds")
         height = env.height
         width = env.width
         if height <= 0 or width <= 0:
